@@ -145,6 +145,10 @@ pub enum Comp {
 }
 
 impl Comp {
+    /// expensive per chunk (large encoder state): keep the number of chunks small
+    pub fn expensive(self) -> bool {
+        matches!(self, Comp::Zstd(l) if l >= 14) || matches!(self, Comp::Lzma(l) if l >= 3) || matches!(self, Comp::Brotli(l) if l >= 10)
+    }
     pub fn to_bitar(self) -> Option<bitar::Compression> {
         match self {
             Comp::None => None,
@@ -175,7 +179,7 @@ pub fn gen_compression() -> Comp {
             1 => 5 + t.draw(5),
             _ => 10 + t.draw(2),
         }),
-        2 => Comp::Zstd(match t.weighted(&[6, 2, 1]) {
+        2 => Comp::Zstd(match t.weighted(&[12, 4, 1]) {
             0 => 1 + t.draw(6),
             1 => 7 + t.draw(10),
             _ => 17 + t.draw(6),
@@ -298,11 +302,14 @@ pub fn expand(spec: &SourceSpec) -> Vec<u8> {
 pub fn gen_len(cfg: &Cfg, max_len: usize) -> usize {
     t(|t| {
         let avg = cfg.expected_avg();
+        // keep the number of chunks (= simulated I/O operations) bounded: mostly <= 300
+        let max_chunks = *t.pick(&[300usize, 40, 40, 300, 300, 2500]);
+        let cap = avg.saturating_mul(max_chunks).min(max_len);
         let n = match t.weighted(&[1, 2, 6, 6, 3, 4]) {
             0 => 0,
             1 => 1 + t.draw(16) as usize,
             2 => {
-                // a handful to a few hundred chunks
+                // a handful to a few dozen chunks
                 let chunks = 1 + t.draw(40) as usize;
                 (avg.saturating_mul(chunks)).saturating_add(t.draw(avg.min(1 << 20) as u32 + 1) as usize)
             }
@@ -314,7 +321,7 @@ pub fn gen_len(cfg: &Cfg, max_len: usize) -> usize {
                 (base + t.draw(3) as usize).saturating_sub(1)
             }
         };
-        n.min(max_len)
+        n.min(cap.max(16))
     })
 }
 
